@@ -68,7 +68,7 @@ static inline uint64_t ts_abs(const TS *t){
   long n = ts_n(t);
   uint64_t h = __CPROVER_uninterpreted_fx_ts0((uint64_t)n, T_LIMIT(t));
   for (long i = 0; i < FTMAX; i++)
-    if (i < n) h = __CPROVER_uninterpreted_fx_ts1(h, T_BEGIN(t)[i].f0, T_BEGIN(t)[i].f1.f0.a[0].f0, T_BEGIN(t)[i].f1.f0.a[0].f1);
+    if (i < n) h = __CPROVER_uninterpreted_fx_ts1(h, T_BEGIN(t)[i].f0, T_BEGIN(t)[i].f1.f0.a.f0, T_BEGIN(t)[i].f1.f0.a.f1);
   return h; }
 /* the thresholds table as a finite map: { g_key -> *g_node } or {} (see contracts.c / gvmodel.c) */
 extern uint64_t g_key;
